@@ -198,6 +198,12 @@ def case_strategy():
         # of both end objects, not only on their distance.
         "straddle": st.one_of(st.none(), st.none(), st.none(),
                               st.tuples(st.integers(3, 8), st.integers(3, 8), st.integers(0, 24)).map(list)),
+        # edge: (slack/4, k): a tiny caller object first, a second object of almost 128 MiB whose *last* word is the
+        # callee, a third one far away.  The caller has one `bl` to that callee and k calls to the third object, whose
+        # thunks are inserted between caller and callee: the estimated distance is just under 2^27 while the real one
+        # is 2^27 + slack - 12, i.e. the decision "a direct branch is enough" sits exactly at the edge of the range.
+        "edge": st.one_of(st.none(), st.none(), st.none(), st.none(),
+                          st.tuples(st.integers(-10, 20), st.integers(2, 40)).map(list)),
     })
 
 
@@ -235,6 +241,17 @@ def build_plan(case):
                 {"size": b * MIB, "jitter": 0, "nfuncs": 1, "sites": [("end", "bl", 0, 0, False), ("start", "b", 0, 0, False)]}]
         perm = [0, 1, 2]
         fan = 0
+    if case.get("edge") and not case.get("straddle"):
+        slack4, k = case["edge"]
+        asize = 4096
+        bsize = (1 << 27) - asize - 12 * k + 4 * slack4
+        objs = [{"size": asize, "jitter": 0, "nfuncs": 1,
+                 "sites": [("start", "bl", 86, 255, False)] + [("start", "bl", 171, (j * 256 + 128) // k, False) for j in range(k)]},
+                {"size": bsize, "jitter": 0, "nfuncs": 1, "sites": [], "tail_func": True},
+                # k distinct callees: k thunks of 12 bytes each in the block that follows the caller
+                {"size": 4 * MIB, "jitter": 0, "nfuncs": k, "sites": [("mid", "b", 0, 0, False)]}]
+        perm = [0, 1, 2]
+        fan = 0
     if fan:
         # caller first, callee last in link order
         objs.append({"size": 64 * 1024 + 4 * fan, "jitter": 0, "nfuncs": 1, "sites": [], "fan": "caller"})
@@ -246,6 +263,8 @@ def build_plan(case):
         for k in range(o["nfuncs"]):
             off = (o["size"] // (o["nfuncs"] + 1) * (k + 1)) & ~3 if k else 0
             funcs.append((i, f"fn_{i}_{k}", off))
+        if o.get("tail_func"):
+            funcs.append((i, f"fn_{i}_t", o["size"] - 4))
     sites = []
     plan = []
     for i, o in enumerate(objs):
@@ -467,7 +486,7 @@ class C11(Check):
             return "K" if s < MIB else "M" if s < 16 * MIB else "H"
         key = "".join(szc(objs[i]["size"]) for i in perm) + "|" + ",".join(f"{s[1]}{s[3]}>{s[4]}" for s in sites if not s[0].startswith("fsite_"))
         return {"nontrivial": thunk >= 1 and direct >= 1, "key": key,
-                "classes": [f"objects_{n}", f"thunks_{min(thunk, 6) // 2 * 2}+", "gc" if case["gc"] else "nogc", "fan" if case.get("fan") else "nofan", "straddle" if case.get("straddle") else "nostraddle",
+                "classes": [f"objects_{n}", f"thunks_{min(thunk, 6) // 2 * 2}+", "gc" if case["gc"] else "nogc", "fan" if case.get("fan") else "nofan", "straddle" if case.get("straddle") else "nostraddle", "edge" if (case.get("edge") and not case.get("straddle")) else "noedge",
                             f"total_{sum(o['size'] for o in objs) // (64 * MIB) * 64}MiB+"],
                 "counters": {"sites": len(sites), "thunked": thunk, "direct": direct, "lld_thunked": lthunk}}
 
